@@ -29,7 +29,7 @@ func All() []Scenario {
 		}
 	}
 	for _, s := range c12.All() {
-		if strings.HasPrefix(s.Name, "streamMerge") && (strings.Contains(s.Name, "E") || strings.Contains(s.Name, "per-call-contexts")) {
+		if strings.HasPrefix(s.Name, "streamMerge") && (strings.Contains(s.Name, "E") || strings.Contains(s.Name, "per-call-contexts") || strings.Contains(s.Name, "first-context-expires")) {
 			out = append(out, Scenario{Name: s.Name, Body: s.Body})
 		}
 	}
